@@ -1,4 +1,5 @@
 """C01 Internal authentication decides exactly per configured users — spec/auth/AuthInternal.tla"""
+import concurrent.futures
 import json
 import time
 import vf
@@ -23,7 +24,27 @@ INVARIANT EmitRows
 CHECK_DEADLOCK FALSE
 """
 
+RCFG = """SPECIFICATION Spec
+CONSTANTS
+  ScanUnlocked = %s
+INVARIANT HistoryOK
+INVARIANT EmitSchedules
+CHECK_DEADLOCK FALSE
+"""
+
 PKG = "./internal/auth/"
+
+
+def _reload_model(ctx):
+    """AuthReload.tla: the scan vs. ReloadInternalUsers; exhaustive MC + every schedule (a, b, at)."""
+    d = ctx.specdir()
+    with open(d + "/AuthReload_gen.cfg", "w") as fh:
+        fh.write(RCFG % "FALSE")
+    r = vf.tlc(ctx, "AuthReload", "AuthReload_gen.cfg", workers=2, timeout=600)
+    seen = {}
+    for x in r.tagged("SCHED"):
+        seen[json.dumps(x, sort_keys=True)] = x
+    return r, [dict(v, id=i) for i, (_, v) in enumerate(sorted(seen.items()))]
 
 
 def run(ctx):
@@ -35,7 +56,21 @@ def run(ctx):
     rows = []           # (id, profile, users, reqs, adm, askok, l1ask)
     with open(d + "/AuthInternal_gen.cfg", "w") as fh:
         fh.write(CFG % big)
+    pool = concurrent.futures.ThreadPoolExecutor(max_workers=1)
+    rfut = pool.submit(_reload_model, ctx)                        # runs beside the AuthInternal generation
     r = vf.mc(ctx, "AuthInternal", "AuthInternal_gen.cfg", workers=6, timeout=900, java_opts=["-Xmx6g"])
+    rr, scheds = rfut.result()
+    pool.shutdown()
+    ctx.add("states", rr.distinct)
+    ctx.add("transitions", rr.generated)
+    ctx.cov.setdefault("mc_runs", []).append({"module": "AuthReload", "cfg": "AuthReload_gen.cfg", "distinct": rr.distinct,
+                                              "generated": rr.generated, "depth": rr.depth, "wall_s": round(rr.wall, 2)})
+    if len(scheds) < 500:
+        raise vf.Infra("AuthReload produced only %d schedules" % len(scheds))
+    ctx.set("reload_schedules_in_model", len(scheds))
+    if not ctx.thorough:
+        import random
+        scheds = sorted(random.Random(int(ctx.seed)).sample(scheds, 600), key=lambda x: x["id"])
     reqs_of = {x["prof"]: x["reqs"] for x in r.tagged("REQS")}
     if sorted(reqs_of) != ["cred", "ip", "pair", "perm"]:
         raise vf.Infra("expected one REQS line per profile, got %s" % sorted(reqs_of))
@@ -60,9 +95,18 @@ def run(ctx):
     of = ctx.path("obs.ndjson")
     tf = d + "/C01_trace.ndjson"
     # one go test run: replay of the cases, then the random traces (separate output file)
-    vf.gotest_ok(ctx, PKG, "^TestVerif_C01_(Replay|Trace)$", cases=cf, out=of,
+    rcf = vf.write_ndjson(ctx.path("reload_scheds.ndjson"), scheds)
+    rof = ctx.path("reload_obs.ndjson")
+    gout = vf.gotest_ok(ctx, PKG, "^TestVerif_C01_(Replay|Trace|ReloadReplay)$", cases=cf, out=of, extra=["-v"],
                  params={"TRACEOUT": tf, "RUNS": ctx.pick(300, 4000), "REQS": 12,
-                         "RELOADRUNS": ctx.pick(15, 200), "SLOWHASHES": ctx.pick(6, 40)})
+                         "RELOADRUNS": ctx.pick(20, 200), "SLOWHASHES": ctx.pick(6, 40),
+                         "RELOADCASES": rcf, "RELOADOUT": rof})
+    import re
+    ctx.set("go_test_seconds", {m.group(1): float(m.group(2))
+                                for m in re.finditer(r"--- PASS: TestVerif_C01_(\w+) \(([0-9.]+)s\)", gout)})
+    rrecs = vf.read_ndjson(rof)
+    if len(rrecs) != 2 * len(scheds):
+        raise vf.Infra("harness replayed %d of %d reload schedules" % (len(rrecs) // 2, len(scheds)))
     obs = {o["id"]: o for o in vf.read_ndjson(of)}
     phases["go_replay_and_trace"] = round(time.time() - t0, 1)
     t0 = time.time()
@@ -110,7 +154,29 @@ def run(ctx):
                 "obs_ok": obs[mid[0]]["ok"][0]})
 
     # TV: random CIDRs / regexps / credentials; atoms computed by the harness, structure judged by TLC
-    recs = vf.read_ndjson(tf)
+    recs = vf.read_ndjson(tf) + rrecs
+    race_reports = None
+    if ctx.thorough:
+        # Authenticate x ReloadInternalUsers under the race detector: the decisions are judged like all others;
+        # reports of the detector are counted, they are not verdicts of this property
+        sf = ctx.path("stress_trace.ndjson")
+        sout = vf.gotest_ok(ctx, PKG, "^TestVerif_C01_Trace$", out=sf, race=True, timeout=1500,
+                            env={"GORACE": "halt_on_error=0 exitcode=0"},
+                            params={"RUNS": 0, "REQS": 12, "RELOADRUNS": 300, "SLOWHASHES": 0})
+        srecs = vf.read_ndjson(sf)
+        race_reports = sout.count("WARNING: DATA RACE")
+        recs += srecs
+        ctx.set("race_stress_records", len(srecs))
+        ctx.set("race_detector_reports", race_reports)
+        if race_reports:
+            ctx.note("%d data race reports in the Authenticate x ReloadInternalUsers stress (not a verdict of C01)" % race_reports)
+        # sanity of the model: with the named deviation ScanUnlocked the statement must be violated
+        with open(d + "/AuthReload_dev.cfg", "w") as fh:
+            fh.write(RCFG % "TRUE")
+        sr = vf.tlc(ctx, "AuthReload", "AuthReload_dev.cfg", workers=2, timeout=600, allow_violation=True)
+        if sr.violated != "HistoryOK":
+            raise vf.Infra("AuthReload.tla with ScanUnlocked=TRUE does not violate HistoryOK (got %r)" % sr.violated)
+        ctx.set("deviation_ScanUnlocked_violates", sr.violated)
     if len(recs) < 1000:
         raise vf.Infra("trace harness produced only %d records" % len(recs))
     with open(d + "/TraceAuthInternal.cfg", "w") as fh:
@@ -129,6 +195,18 @@ def run(ctx):
             if nbad <= 40:
                 small = {"kind": rec["kind"], "desc": rec["desc"],
                          "req": {k: rec["req"][k] for k in ("user", "pass", "token", "ask")}, "obs": rec["obs"]}
+                if "sched" in rec:
+                    sc = rec["sched"]
+                    ctx.violation({"reload": {"a": sc["a"], "b": sc["b"], "at": sc["at"], "obs_ok": rec["obs"]["ok"],
+                                              "after_reload": bool(sc.get("after_reload"))}},
+                                  "request of bob (digest verifier) %s although %s: user list %s, ReloadInternalUsers(%s) "
+                                  "requested while entry %d was being evaluated (reload waited for the scan: %s)" % (
+                                      "ADMITTED" if rec["obs"]["ok"] else "REJECTED",
+                                      "neither the old nor the new list admits it" if rec["obs"]["ok"]
+                                      else "both the old and the new list admit it" if not sc.get("after_reload")
+                                      else "the list configured now admits it",
+                                      sc["a"], sc["b"], sc["at"], sc.get("reload_waited_for_scan")))
+                    continue
                 ctx.violation({"trace": small},
                               "statement formula false on a random configuration: %s; atoms=%s" % (
                                   json.dumps(small, sort_keys=True)[:900], json.dumps(rec["users"])[:500]))
@@ -139,6 +217,9 @@ def run(ctx):
     ctx.set("trace_records", len(recs))
     ctx.set("trace_records_admitted", sum(1 for r in recs if r["obs"]["ok"]))
     ctx.set("trace_records_reload", sum(1 for r in recs if r["kind"] == "reload"))
+    ctx.set("reload_schedules_replayed", len(scheds))
+    ctx.set("reload_schedules_where_reload_waited_for_scan",
+            sum(1 for r in rrecs if r["sched"].get("reload_waited_for_scan")))
     ctx.set("drift_events", drift)
     if drift:
         ctx.note("%d observations differ from layer 1 without violating the statement (DRIFT)" % drift)
